@@ -4,6 +4,7 @@ import (
 	"fmt"
 	"strings"
 	"sync"
+	"sync/atomic"
 	"time"
 
 	"verifharness/hx"
@@ -39,6 +40,9 @@ func grantedWithin(call func(), d time.Duration) (granted bool, panicked string)
 }
 
 const probeWait = 40 * time.Millisecond
+
+// seqStalls counts the calls that blocked after a recovered misuse panic although they had to return.
+var seqStalls atomic.Int32
 
 func execSeqSM(r *hx.Run, ops []string) string {
 	mu := syncutils.NewStarvingMutex()
@@ -326,7 +330,25 @@ func execSeqDag(r *hx.Run, ops []string, cont bool) string {
 			return strings.Join(append(ans, "ok"), " ")
 		}
 		reg0 := dagReg(d)
-		p := hx.Safely(call)
+		var p string
+		if misused == "" {
+			p = hx.Safely(call)
+		} else {
+			// after a recovered misuse panic nothing is taken for granted: a call that has to return is given 3 s (and
+			// after six such stalls the sequences are cut here: a broken tree must not cost minutes)
+			if seqStalls.Load() >= 6 {
+				return strings.Join(append(ans, "skipped"), " ")
+			}
+			g, pp := grantedWithin(call, 3*time.Second)
+			if !g {
+				seqStalls.Add(1)
+				r.Fail("stall", fmt.Sprintf("after the recovered panic of DAGMutex.%s: %s(%s) blocks although nothing it needs is held by anybody else; sequence %v", misused, op, f[1], ops),
+					sig("api", "DAGMutex."+op, "oracle", "blocked-after-misuse-panic", "misuse", "DAGMutex."+misused, "trigger", trigger))
+
+				return strings.Join(append(ans, "block"), " ")
+			}
+			p = pp
+		}
 		if p != "" {
 			ans = append(ans, "panic")
 			if !expectPanic && misused == "" {
